@@ -57,12 +57,14 @@ def elements(field, seed, tier):
     if field == "fq2":
         return alpha.fq2_alphabet(seed, 2 if tier == "quick" else 3)
     if field == "fq6":
-        return alpha.fq6_alphabet(seed, limit=24 if tier == "quick" else 64)
+        return alpha.dedup(alpha.fq6_alphabet(seed, limit=24 if tier == "quick" else 64) + [unflat("fq6", v) for v in alpha.unit_plus_one(6, seed, "f6")])
     al = alpha.fq12_alphabet(seed, limit=24 if tier == "quick" else 4096)      # thorough: EVERY zero/non-zero support pattern
     # embedded subfield elements
     f2s = alpha.fq2_alphabet(seed, 1)
     al += [ref.f12_from_f2(a) for a in f2s[:: 7]]
     al += [(a, ref.F6_ZERO) for a in alpha.fq6_alphabet(seed, 8)[:: 3]]
+    # (+-1 at one position, generic at another): appended last, so the binary operations' prefix is unchanged and the unary ones see all
+    al += [unflat("fq12", v) for v in alpha.unit_plus_one(12, seed, "f12")]
     return alpha.dedup(al)
 
 
@@ -249,7 +251,7 @@ def run_shard(ctx, shard):
         for a in E[part::parts]:
             emit({"cfg": cfg, "field": field, "op": "unary", "a": hexl(a)}, not triv(a), field + ":unary")
     elif op == "frobenius":
-        S = E if field != "fq12" else (E[::3] if ctx.tier == "quick" else E[:: max(2, len(E) // 400)])
+        S = E if field == "fq2" else (E[::3] if ctx.tier == "quick" else E[:: max(2, len(E) // 400)])
         for a in S[part::parts]:
             emit({"cfg": cfg, "field": field, "op": "frobenius", "a": hexl(a)}, not triv(a), field + ":frobenius")
             if ctx.out_of_time():
